@@ -50,6 +50,7 @@ class Exporter:
         self.argowners = argowners or {}
         self.argcontent = {}
         self.argfo = {}
+        self.tmap = {}
         self.depth = depth
         self.prog = prog
         self.an = an
@@ -239,6 +240,10 @@ class Exporter:
 
     # ---- content ----------------------------------------------------------------
     def content(self, e, depth=0):
+        if self.tmap and depth == 0:
+            # inside a generic helper: instantiate its type parameters, resolve trait-method calls on them
+            from ..slicer import subst_types
+            e = self.an.expand(subst_types(e, self.tmap, None, self.prog))
         e0 = e
         e = peel(e)
         k = e[0]
@@ -276,6 +281,12 @@ class Exporter:
                 if items is not None:
                     return ("inline", items)
             if e[2].local:
+                hb = self.prog.bodies.get(e[2].path)
+                if hb is not None and hb.local_ty(0).startswith("&") and depth < 6:
+                    # a private accessor handing out (a view of) stored bytes: `fn as_bytes(&self) -> &[u8]`
+                    x = self.an.expand(e)
+                    if not (peel(x)[0] == "call" and peel(x)[2] is not None and peel(x)[2].path == e[2].path):
+                        return self.content(x, depth + 1)
                 return ("enc", self.path_of(e[3][0]) if e[3] else "?", e[2].path)
             return ("unknown", "call %s" % n)
         if k == "ok":
@@ -371,13 +382,16 @@ class Exporter:
             return ("arg", x[1])
         return None
 
-    def _sub_exporter(self, callee_path, argexprs):
+    def _sub_exporter(self, callee_path, argexprs, callee=None):
         """Exporter for a crate helper / closure body with its parameters mapped to this body's paths."""
         cb = self.prog.body(callee_path)
         if cb is None or self.depth > 4:
             return None
         ap = {}
         ao = {}
+        if self.tmap:
+            from ..slicer import subst_types
+            argexprs = [a if (a is None or isinstance(a, list)) else self.an.expand(subst_types(a, self.tmap, None, self.prog)) for a in argexprs]
         for i, a in enumerate(argexprs):
             if isinstance(a, list):
                 ap[i + 1] = a
@@ -387,6 +401,11 @@ class Exporter:
                 if ow[0]:
                     ao[i + 1] = ow
         sub = Exporter(self.prog, self.an, cb, ap, self.depth + 1, ao)
+        gens = cb.j.get("generics") or []
+        if callee is not None and gens and callee.args and len(gens) == len(callee.args):
+            sub.tmap = {g: self.tmap.get(a, a) for g, a in zip(gens, callee.args)}
+        elif cb.kind == "Closure":
+            sub.tmap = dict(self.tmap)
         for i, a in enumerate(argexprs):
             if a is None or isinstance(a, list):
                 continue
@@ -515,7 +534,7 @@ class Exporter:
             if c.local and c.path in self.prog.bodies and c.path != b.path:
                 bufarg = [i for i, a in enumerate(t["args"]) if self.vec_local_of(self.an.op(b, a)) == vlocal]
                 if bufarg:
-                    sub = self._sub_exporter(c.path, [self.an.op(b, a) for a in t["args"]])
+                    sub = self._sub_exporter(c.path, [self.an.op(b, a) for a in t["args"]], c)
                     if sub is not None:
                         items = self._inline_items(sub, ("arg", bufarg[0] + 1))
                         evs.append({"pos": self.order.get(blk, 0), "block": blk, "loop": self.loopctx(blk), "cond": self.condctx(blk), "content": ("inline", items)})
